@@ -46,84 +46,87 @@ impl<'a> StringLexer<'a> {
 
     /// (mostly just used by Iterator, but might be useful)
     pub fn next_lexeme(&mut self) -> Result<Option<u8>> {
-        let c = self.next_byte()?;
-        match c {
-            b'\\' => {
-                let c = self.next_byte()?;
-                Ok(
-                match c {
-                    b'n' => Some(b'\n'),
-                    b'r' => Some(b'\r'),
-                    b't' => Some(b'\t'),
-                    b'b' => Some(b'\x08'),
-                    b'f' => Some(b'\x0c'),
-                    b'(' => Some(b'('),
-                    b')' => Some(b')'),
-                    b'\n' => {
-                        // ignore end-of-line marker
-                        if let Ok(b'\r') = self.peek_byte() {
-                            let _ = self.next_byte();
-                        }
-                        self.next_lexeme()?
-                    }
-                    b'\r' => {
-                        // ignore end-of-line marker
-                        if let Ok(b'\n') = self.peek_byte() {
-                            let _ = self.next_byte();
-                        }
-                        self.next_lexeme()?
-                    }
-                    b'\\' => Some(b'\\'),
-
-                    _ => {
-                        self.back()?;
-                        let _start = self.get_offset();
-                        let mut char_code: u16 = 0;
-                        let mut digits = 0;
-
-                        // A character code must follow. 1-3 numbers.
-                        for _ in 0..3 {
-                            let c = self.peek_byte()?;
-                            if (b'0'..=b'7').contains(&c) {
-                                self.next_byte()?;
-                                char_code = char_code * 8 + (c - b'0') as u16;
-                                digits += 1;
-                            } else {
-                                break;
+        // a loop, not recursion: a string may hold any number of line continuations and ignored backslashes
+        loop {
+            let c = self.next_byte()?;
+            return match c {
+                b'\\' => {
+                    let c = self.next_byte()?;
+                    Ok(
+                    match c {
+                        b'n' => Some(b'\n'),
+                        b'r' => Some(b'\r'),
+                        b't' => Some(b'\t'),
+                        b'b' => Some(b'\x08'),
+                        b'f' => Some(b'\x0c'),
+                        b'(' => Some(b'('),
+                        b')' => Some(b')'),
+                        b'\n' => {
+                            // ignore end-of-line marker
+                            if let Ok(b'\r') = self.peek_byte() {
+                                let _ = self.next_byte();
                             }
+                            continue
                         }
-                        if digits == 0 {
-                            // not an escape sequence: the backslash is ignored
-                            return self.next_lexeme();
+                        b'\r' => {
+                            // ignore end-of-line marker
+                            if let Ok(b'\n') = self.peek_byte() {
+                                let _ = self.next_byte();
+                            }
+                            continue
                         }
-                        Some(char_code as u8)
+                        b'\\' => Some(b'\\'),
+
+                        _ => {
+                            self.back()?;
+                            let _start = self.get_offset();
+                            let mut char_code: u16 = 0;
+                            let mut digits = 0;
+
+                            // A character code must follow. 1-3 numbers.
+                            for _ in 0..3 {
+                                let c = self.peek_byte()?;
+                                if (b'0'..=b'7').contains(&c) {
+                                    self.next_byte()?;
+                                    char_code = char_code * 8 + (c - b'0') as u16;
+                                    digits += 1;
+                                } else {
+                                    break;
+                                }
+                            }
+                            if digits == 0 {
+                                // not an escape sequence: the backslash is ignored
+                                continue;
+                            }
+                            Some(char_code as u8)
+                        }
                     }
-                }
-                )
-            },
+                    )
+                },
 
-            b'(' => {
-                self.nested += 1;
-                Ok(Some(b'('))
-            },
-            b')' => {
-                self.nested -= 1;
-                if self.nested < 0 {
-                    Ok(None)
-                } else {
-                    Ok(Some(b')'))
-                }
-            },
-            b'\r' => {
-                // an unescaped end-of-line marker (CR or CR LF) reads as a single LF
-                if let Ok(b'\n') = self.peek_byte() {
-                    let _ = self.next_byte();
-                }
-                Ok(Some(b'\n'))
-            },
+                b'(' => {
+                    self.nested += 1;
+                    Ok(Some(b'('))
+                },
+                b')' => {
+                    self.nested -= 1;
+                    if self.nested < 0 {
+                        Ok(None)
+                    } else {
+                        Ok(Some(b')'))
+                    }
+                },
+                b'\r' => {
+                    // an unescaped end-of-line marker (CR or CR LF) reads as a single LF
+                    if let Ok(b'\n') = self.peek_byte() {
+                        let _ = self.next_byte();
+                    }
+                    Ok(Some(b'\n'))
+                },
 
-            c => Ok(Some(c))
+                c => Ok(Some(c))
 
+            };
         }
     }
 
